@@ -102,7 +102,8 @@ def check_partial(case, ctx):
 @st.composite
 def cases(draw, prof, maxlen):
     spec = draw(specgen.specs(prof))
-    hist = draw(U.histories(min_len=3, max_len=maxlen, p_present=draw(st.sampled_from([0.6, 0.85, 0.95]))))
+    hist = draw(U.histories(min_len=3, max_len=maxlen, p_present=draw(st.sampled_from([0.6, 0.85, 0.95])),
+                            focus=sorted(specgen.mentioned_keys(spec))))
     return {"spec": spec, "history": hist, "off": draw(st.sampled_from(["ctx", "mixed"])), "reuse_dict_object": draw(st.booleans())}
 
 
@@ -110,5 +111,5 @@ PROFILE = specgen.profile()
 PARTS = [
     Part("histories", check,
          strategy=lambda ctx: cases(PROFILE, 10 if ctx.tier == "quick" else 24),
-         budget={"quick": 120, "thorough": 1500}),
+         budget={"quick": 400, "thorough": 2000}),
 ]
